@@ -53,6 +53,7 @@ Definition args_okb (c : case) : bool :=
   | 9 => nvals c 0 && std_widthb (arg c 0) && all_lt (pow2 (arg c 0)) (lst c 0)
   | 10 => nvals c 0 && all_lt 2 (lst c 0)
   | 11 | 12 => nvals c 1
+  | 14 => nvals c 2
   | 20 | 21 | 22 | 23 | 24 | 25 | 26 | 27 | 28 | 29 | 32 | 36 => nvals c 1
   | 30 => nvals c 1 && calls_okb (lst c 0)
   | 31 => nvals c 1 && ((1 <=? arg c 0) || disp_okb c) && (arg c 0 <=? 4)
